@@ -30,6 +30,10 @@ func (j *replayJob) confirms() bool {
 	case "panic":
 		return j.outcome == "panic"
 	case "assert":
+		if strings.HasPrefix(j.viol.Tag, "no-unsynchronised-write-to-package-level-state") {
+			// a footprint finding is confirmed by the race detector
+			return j.outcome == "race"
+		}
 		return j.outcome == "assert" && j.detail == j.viol.Tag
 	case "hang":
 		return j.outcome == "hang"
@@ -95,15 +99,30 @@ func (r *replayer) run(jobs []*replayJob) error {
 	os.WriteFile(lf, []byte(list.String()), 0o644)
 	ctx, cancel := context.WithTimeout(context.Background(), 15*time.Minute)
 	defer cancel()
-	cmd := exec.CommandContext(ctx, "go", "test", "-tags", "verif", "-vet=off", "-count=1", "-timeout", "14m", "-run", "^TestVerifReplay$", "-v", "-overlay", of, ".")
+	args := []string{"test", "-tags", "verif", "-vet=off", "-count=1", "-timeout", "14m", "-run", "^TestVerifReplay$", "-v", "-overlay", of}
+	if r.prop == "C11" {
+		args = append(args, "-race")
+	}
+	args = append(args, ".")
+	cmd := exec.CommandContext(ctx, "go", args...)
 	cmd.Dir = r.repo
 	cmd.Env = append(goEnv(), "VERIF_REPLAY_LIST="+lf)
 	out, err := cmd.CombinedOutput()
 	sc := bufio.NewScanner(bytes.NewReader(out))
 	sc.Buffer(make([]byte, 1<<20), 1<<24)
 	n := 0
+	var cur *replayJob
+	raced := map[*replayJob]bool{}
 	for sc.Scan() {
 		ln := sc.Text()
+		if strings.HasPrefix(ln, "VREPLAY-BEGIN ") {
+			cur = byPath[strings.TrimSpace(strings.TrimPrefix(ln, "VREPLAY-BEGIN "))]
+			continue
+		}
+		if strings.Contains(ln, "WARNING: DATA RACE") && cur != nil {
+			raced[cur] = true
+			continue
+		}
 		if !strings.HasPrefix(ln, "VREPLAY ") {
 			continue
 		}
@@ -121,6 +140,12 @@ func (r *replayer) run(jobs []*replayJob) error {
 				}
 			}
 			n++
+		}
+	}
+	for j := range raced {
+		if j.outcome == "ok" {
+			j.outcome = "race"
+			j.detail = "data race reported by the race detector"
 		}
 	}
 	if n != len(jobs) {
